@@ -12,7 +12,9 @@
                                              create_approx_matrices (speed set, per-profile lookup)
      vrp-pragmatic/src/format/problem/problem_reader.rs :: map_to_problem (validate -> read_fleet -> create_transport_costs), map_to_problem_with_approx
      vrp-pragmatic/src/utils/approx_transportation.rs :: get_approx_transportation (all ordered pairs, `round() as i64`, division by the speed)
-                                             over an ABSTRACT distance function (haversine uses libm sin/cos/atan2: not modelled)
+                                             over an ABSTRACT distance function (haversine uses libm sin/cos/atan2: values not modelled);
+                                             get_haversine_distance / degree_rad / wgs84_earth_radius: the STRUCTURE over abstract
+                                             operations (haversine), with and without the parenthesised cosine product of d74b2b6
    Entry points for the correspondence: run_doc, run_approx_post, run_bs. *)
 From VRP Require Import Base.Tac Model.Routing.
 From Coq Require Import QArith Qround.
@@ -115,10 +117,27 @@ Definition validate_routing (d : document) : list Z :=
   (if e1503 d then [1503] else []) ++ (if e1504 d then [1504] else []) ++ (if e1505 d then [1505] else []).
 
 (* ------------------------------------------------------------------ create_transport_costs *)
-Inductive derr := DMixedProfiles | DTsWithoutProfile | DNotEnough | DNotEnoughCodes | DInvalidIndex | DProfileCount | DCore (e : berr).
+Inductive derr := DMixedProfiles | DTsWithoutProfile | DNotEnough | DNotEnoughCodes | DCodesLength | DInvalidIndex | DProfileCount
+                | DCore (e : berr).
 
-(* per-matrix data: Err "not enough error codes" (f7d2f27), Err "invalid matrix index" (with_codes = None), or the two vectors *)
+(* per-matrix data: Err "not enough error codes" (f7d2f27), Err "error codes, travel times and distances must have the same
+   length" (repair 7d3c5fe, finding C16-F4), Err "invalid matrix index" (with_codes = None; unreachable since 7d3c5fe), or
+   the two vectors *)
 Definition pm_data2 (pm : pmatrix) : derr + (list Q * list Q) :=
+  match pm_err pm with
+  | Some codes =>
+    if (length codes <? length (pm_dists pm))%nat then inl DNotEnoughCodes
+    else if negb ((length codes =? length (pm_dists pm))%nat && (length (pm_times pm) =? length (pm_dists pm))%nat)
+    then inl DCodesLength
+    else match with_codes codes 0 (pm_times pm) (pm_dists pm) with
+         | Some v => inr v
+         | None => inl DInvalidIndex
+         end
+  | None => inr (map inject_Z (pm_times pm), map inject_Z (pm_dists pm))
+  end.
+
+(* the step as it was before repair 7d3c5fe (the three lengths were never compared); kept only for the witness theorem *)
+Definition pm_data2_prefix (pm : pmatrix) : derr + (list Q * list Q) :=
   match pm_err pm with
   | Some codes =>
     if (length codes <? length (pm_dists pm))%nat then inl DNotEnoughCodes
@@ -180,6 +199,47 @@ Definition doc_read (d : document) : dres :=
     end
   end.
 
+(* the reader before repair 7d3c5fe (pm_data2_prefix instead of pm_data2), for the witness theorem only *)
+Fixpoint pm_convert2_prefix (names : list nat) (pos : nat) (pms : list pmatrix) : derr + list matrix :=
+  match pms with
+  | [] => inr []
+  | pm :: r =>
+    match pm_data2_prefix pm with
+    | inl e => inl e
+    | inr (du, di) =>
+      match pm_convert2_prefix names (S pos) r with
+      | inl e => inl e
+      | inr ms => inr (mkM (pm_index names pos pm) (option_map inject_Z (pm_ts pm)) du di :: ms)
+      end
+    end
+  end.
+Definition doc_transport_prefix (profiles : list nat) (pms : list pmatrix) : dbuilt :=
+  if negb (forallb (fun m => is_some (pm_profile m)) pms) && negb (forallb (fun m => negb (is_some (pm_profile m))) pms)
+  then TErr DMixedProfiles
+  else if existsb (fun m => negb (is_some (pm_profile m))) pms && existsb (fun m => is_some (pm_ts m)) pms
+  then TErr DTsWithoutProfile
+  else
+    let names := profile_names profiles in
+    if (length pms <? length names)%nat then TErr DNotEnough
+    else match pm_convert2_prefix names 0 pms with
+         | inl e => TErr e
+         | inr data =>
+           if negb (length names =? distinct_count (map m_index data))%nat then TErr DProfileCount
+           else match build data with
+                | Ok p => TOk p
+                | Err e => TErr (DCore e)
+                end
+         end.
+Definition doc_read_prefix (d : document) : dres :=
+  match validate_routing d with
+  | c :: r => DInvalid (c :: r)
+  | [] =>
+    match doc_transport_prefix (prof_names d) (d_matrices d) with
+    | TErr e => DRejected e
+    | TOk p => DOk p (map (fun v => vehicle_profile (prof_names d) (dv_profile v) (dv_scale v)) (d_vehicles d))
+    end
+  end.
+
 (* ------------------------------------------------------------------ approximation *)
 (* f64::round (half away from zero) followed by `as i64` (saturation not modelled: values are far below 2^63) *)
 Definition qround (q : Q) : Z := if Qle_bool 0 q then Qfloor (q + (1 # 2)) else - Qfloor (- q + (1 # 2)).
@@ -220,10 +280,38 @@ Section ApproxDoc.
   Definition doc_read_approx (d : document) : dres := doc_read (doc_with_approx d).
 End ApproxDoc.
 
+(* ------------------------------------------------------------------ the STRUCTURE of get_haversine_distance *)
+(* over an abstract carrier with abstract operations (binary64 with libm in the code): which operations are applied to what, in
+   which order.  [fixed] = true: the product of the two cosines is taken first (repair d74b2b6, finding C16-F6);
+   false: the product is evaluated left to right as before the repair *)
+Section HaversineStructure.
+  Variable F : Type.
+  Variables (fadd fsub fmul fdiv : F -> F -> F) (fsin fcos fsqrt : F -> F) (fatan2 : F -> F -> F).
+  Variables (one two pi c180 wa wb : F).
+  Definition deg_rad (x : F) : F := fdiv (fmul pi x) c180.
+  Definition wgs84_radius (lat : F) : F :=
+    let an := fmul (fmul wa wa) (fcos lat) in
+    let bn := fmul (fmul wb wb) (fsin lat) in
+    let ad := fmul wa (fcos lat) in
+    let bd := fmul wb (fsin lat) in
+    fsqrt (fdiv (fadd (fmul an an) (fmul bn bn)) (fadd (fmul ad ad) (fmul bd bd))).
+  Definition haversine (fixed : bool) (p1 p2 : F * F) : F :=
+    let d_lat := deg_rad (fsub (fst p1) (fst p2)) in
+    let d_lng := deg_rad (fsub (snd p1) (snd p2)) in
+    let lat1 := deg_rad (fst p1) in
+    let lat2 := deg_rad (fst p2) in
+    let s1 := fsin (fdiv d_lat two) in
+    let s2 := fsin (fdiv d_lng two) in
+    let a := if fixed then fadd (fmul s1 s1) (fmul (fmul s2 s2) (fmul (fcos lat1) (fcos lat2)))
+             else fadd (fmul s1 s1) (fmul (fmul (fmul s2 s2) (fcos lat1)) (fcos lat2)) in
+    let c := fmul two (fatan2 (fsqrt a) (fsqrt (fsub one a))) in
+    fmul (wgs84_radius d_lat) c.
+End HaversineStructure.
+
 (* ------------------------------------------------------------------ entry points for the correspondence *)
 Definition derr_code (e : derr) : Z :=
   match e with DMixedProfiles => 101 | DTsWithoutProfile => 102 | DNotEnough => 103 | DInvalidIndex => 104
-             | DProfileCount => 105 | DNotEnoughCodes => 106 | DCore e => berr_code e end.
+             | DProfileCount => 105 | DNotEnoughCodes => 106 | DCodesLength => 107 | DCore e => berr_code e end.
 
 Definition mkDVz (name : nat) (sn sd : Z) : dvehicle := mkDV name (if sd =? 0 then None else Some (qz sn sd)).
 
